@@ -5,4 +5,5 @@ let table : (string * ((Model.z list -> Model.z list) * (Model.z list -> Model.z
   ("C16", (Model.run_c16, Model.chk_c16));
   ("C17", (Model.run_c17, Model.chk_c17));
   ("C15", (Model.run_c15, Model.chk_c15));
+  ("C20", (Model.run_c20, Model.chk_c20));
 ]
